@@ -192,10 +192,20 @@ def pair_grouped(pipe, items, c, nested=False):
     died = tr['end']['t'] == 'error'
     for child, its in groups.items():
         mux_items = [e['v'] for e in tail if e['t'] == 'n' and e['k'][0] == child]
-        pr, perr = plain_group(pipe, its, complete=not died)
+        # the multiplexed stream may have died (an error reached a demultiplexer) while the
+        # groups were being completed one after the other: a group is compared with a
+        # completed plain run exactly when its own completion came before the death
+        completed = not died or any(e['t'] == 'd' and e['k'][0] == child and e['o'] < tr['end']['o']
+                                    for e in head)
+        pr, perr = plain_group(pipe, its, complete=completed)
+        errtype = pr.get('errtype')
+        if died and not completed:
+            # would the plain operator raise by design on this group (first/last/mean(reduce) of
+            # an empty sequence)?  Then the case is outside C01, whatever killed the stream.
+            errtype = errtype or plain_group(pipe, its, complete=True)[0].get('errtype')
         out.append({'items': its, 'mux': mux_items, 'muxerr': 0, 'plain': [o['v'] for o in pr['out']],
                     'plainend': 'completed' if (died and pr['end'] == 'open') else pr['end'],
-                    'plainerr': perr, 'errtype': pr.get('errtype')})
+                    'plainerr': perr, 'errtype': errtype})
     return tr, out, died
 
 
@@ -204,8 +214,15 @@ def main(tier, replay):
     if replay:
         w = json.load(open(replay))['witness']
         pipe = json.loads(w['pipe'])
-        groups = [(g[0], g[1]) for g in w['groups']]
-        tr, gs = pair_direct(random.Random(w.get('sched_seed', 0)), pipe, groups, share=w.get('share_ops', False))
+        if w.get('mode') == 'grouped':
+            gg = w['groups']
+            tr, gs, _died = pair_grouped(pipe, gg['items'], gg['c'], nested=gg['nested'])
+        else:
+            groups = [(g[0], g[1]) for g in w['groups']]
+            tr, gs = pair_direct(random.Random(w.get('sched_seed', 0)), pipe, groups, share=w.get('share_ops', False))
+        if any(g.get('errtype') in PRECOND_ERRORS for g in gs):
+            print('outside C01: first/last/mean(reduce) met an empty group (the plain operator raises by design)')
+            return 0
         v, _ = C.validate_traces('PlainTrace', [{'pipe': pipe, 'modeled': modeled(pipe), 'oracle': 'pair',
                                                  'groups': [{k: g[k] for k in g if k != 'errtype'}
                                                             for g in gs]}])
@@ -258,7 +275,7 @@ def main(tier, replay):
             items = G.ints([rng.randint(0, 5) for _ in range(rng.randint(1, 12))])
             tr, gs, died = pair_grouped(pipe, items, c, nested=(ci % 6 == 5))
             mode = 'grouped'
-            groups = None
+            groups = {'items': items, 'c': c, 'nested': ci % 6 == 5}
         else:
             nk = rng.choice([1, 2, 3, 4])
             groups = []
